@@ -191,10 +191,9 @@ theorem passthroughG (S : Scalar → Bool) (leaf : Scalar → Val → Bool) (lit
         simp [um, unionOrder, hnull, firstOk, humNone, umNone, decode]
       · have hm0' : m0 = t' := by
           have hnn : m0.isNone = false := by
-            cases m0 <;> simp [Ty.isNone]
-            subst hn'
-            simp only [hasTypeG] at hty0
-            exact hvn (eq_none_of_beq hty0)
+            cases hb : m0.isNone with
+            | false => rfl
+            | true => exact absurd (isNone_hasTypeG _ _ env n m0 v hb hty0) hvn
           have : m0 ∈ ms.filter (fun m => !m.isNone) := List.mem_filter.mpr ⟨hm0, by simp [hnn]⟩
           rw [ht'] at this
           simpa using this
